@@ -103,6 +103,9 @@ class EngineBase:
         if z3.is_true(z3.simplify(goal)) if z3.is_bool(goal) else False:
             status = 'discharged'
             backend = 'simplifier'
+        elif any(goal.eq(h) for h in st.pc):
+            status = 'discharged'                  # the goal is literally one of the hypotheses (e.g. a callee postcondition passed on)
+            backend = 'hypothesis'
         else:
             allh = list(self.background) + list(st.pc) + list(st.guards)
             r = z3.unknown
